@@ -95,7 +95,12 @@ class Image:
         # NOTE: For now, only anticipate matrix indexing.
         assert self.indexing == "ijk"[: self.space_dim]
 
-        self.dimensions: list[float] = kwargs.get("dimensions", self.space_dim * [1])
+        # NOTE: Use a copy - the keywords 'height', 'width', 'depth' (below) modify the
+        # list, which must not affect the list of the caller (or of the image the metadata
+        # originates from).
+        self.dimensions: list[float] = list(
+            kwargs.get("dimensions", self.space_dim * [1])
+        )
         """Dimension in the directions corresponding to the indexings."""
 
         self.name = kwargs.get("name", None)
